@@ -4,6 +4,8 @@
 //! unit's gate is captured; the RIB is queried with Rib::match_prefix.
 //! Case grammar: `F rib <prog|none>` then
 //!   U <id> <tag> <attrs> <ann prefixes|-> <wd prefixes|->    -> out:[..] fwd:[..]
+//!   M <id> <tag> <attrs> <prefix>                           -> out:[..] fwd:[..]   one route of an MRT table dump:
+//!                                                              Update::Single, RouteContext::Mrt (mrt-file-in)
 //!   Q <prefix>                                              -> q:[..]
 use crate::engines::c10::{self, parse_attrs, parse_filter, pfx_str, plist, roto_source, update_bytes};
 use rotonda::payload::{RotondaRoute, Update};
@@ -110,6 +112,22 @@ pub fn run_case(line: &str) -> String {
                 let msg = routecore::bgp::message::UpdateMessage::from_octets(bytes, &routecore::bgp::message::SessionConfig::modern()).unwrap();
                 let u = rt.block_on(rotonda::verif::bgp::verif_process_update(msg, c10::bgp_provenance(id, 65000))).unwrap();
                 rt.block_on(rib.verif_process_update(u)).unwrap();
+                let (o, f) = show_downstream(&cap.take());
+                out.push(o);
+                out.push(f);
+            }
+            "M" => {
+                // what mrt-file-in sends for a RIB entry: the route alone, its provenance in an MrtContext
+                let id: u32 = op[1].parse().unwrap();
+                let mut a = parse_attrs(op[3]);
+                a.tag = op[2].parse().unwrap();
+                let bytes = update_bytes(&a, &plist(op[4]), &[], true);
+                let msg = routecore::bgp::message::UpdateMessage::from_octets(bytes, &routecore::bgp::message::SessionConfig::modern()).unwrap();
+                let u = rt.block_on(rotonda::verif::bgp::verif_process_update(msg, c10::bgp_provenance(id, 65000))).unwrap();
+                let mut p = match u { Update::Bulk(ps) => ps.into_iter().next().unwrap(), Update::Single(p) => p, _ => panic!("no route") };
+                let prov = match &p.context { RouteContext::Fresh(c) => c.provenance(), _ => panic!("fresh context expected") };
+                p.context = RouteContext::for_mrt_dump(prov);
+                rt.block_on(rib.verif_process_update(Update::Single(p))).unwrap();
                 let (o, f) = show_downstream(&cap.take());
                 out.push(o);
                 out.push(f);
